@@ -18,6 +18,7 @@ BUDGET = {'quick': 900, 'thorough': 5400}
 T = G.TYPES
 
 OPS = ['pc', 'sf0', 'sf1', 'pmf', 'b20', 'b21', 'chi0', 'chi1', 'spin', 'solvH', 'solvP', 'flip_h', 'flip_c', 'flip_om', 'resolve']
+BADFLIPS = ['badflip_h', 'badflip_c', 'badflip_om']
 
 def drv_line(op):
     return {'pc': 'calc.pc', 'sf0': 'calc.sf 0', 'sf1': 'calc.sf 1', 'pmf': 'calc.pmf', 'b20': 'calc.b2 0', 'b21': 'calc.b2 1',
@@ -143,6 +144,20 @@ def run_ops(ctx, case, p, pristine, can0, scale0, n):
     err_mine = np.geterr()
     for step, op in enumerate(case['ops']):
         sub = dict(case, ops=case['ops'][:step + 1])
+        if op.startswith('badflip_'):
+            # the user transforms a stored array with a Domain of ANOTHER length (the next run's grid): the attempt fails, is caught,
+            # and the object is what it was
+            m = {'h': p.totalCorr, 'c': p.directCorr, 'om': p.omega}[op[8:]]
+            other = pyPRISM.Domain(length=int(p.sys.domain.length) + 5, dr=0.1)
+            sp_before = m.space; data_before = m.data.copy()
+            try:
+                (other.MatrixArray_to_fourier if m.space == Space.Real else other.MatrixArray_to_real)(m); failed = False
+            except Exception:
+                failed = True
+            ctx.pred('ops', sub, failed and m.space == sp_before and bool(np.array_equal(m.data, data_before)),
+                     'a transform of a stored array with a Domain of another length %s; the array is now flagged %s (was %s)' % ('raised' if failed else 'was accepted', m.space, sp_before), key='C06:corrupts:flag')
+            if not (failed and m.space == sp_before): return
+            continue
         if op == 'resolve':
             if p.minimize_result is None or p.omega.space != Space.Fourier:
                 continue
@@ -218,7 +233,20 @@ def run_ops(ctx, case, p, pristine, can0, scale0, n):
             ctx.pred('ops', sub, e <= 1e-7 * sc * max(1, step + 1), 'stored %s changed by %s (history %s): max diff %.3g' % (name, op, case['ops'][:step], e),
                      key='C06:corrupts:' + name)
 
-SUITES = {'ops': suite_ops}
+def suite_optimized(ctx, case):
+    """the same histories under `python -O` (assert statements compiled out): history independence does not depend on assertions"""
+    import subprocess, sys, os, json
+    from ..paths import REPO
+    env = dict(os.environ, VERIF_REPO=REPO, PYPRISM_VERIF='1')
+    pr = subprocess.run([sys.executable, '-O', '-B', '-W', 'ignore', os.path.join(os.path.dirname(os.path.dirname(os.path.abspath(__file__))), 'optrun.py'), json.dumps(case)],
+                        stdout=subprocess.PIPE, stderr=subprocess.PIPE, text=True, env=env, timeout=600)
+    try:
+        res = json.loads(pr.stdout.strip().split('\n')[-1])
+    except Exception:
+        ctx.pred('optimized', case, False, 'the -O sub-run did not finish: %s' % pr.stderr[-200:], key='C06:optimized'); return
+    ctx.pred('optimized', case, res.get('optimized') and not res['failures'], 'under python -O (assertions removed): %s' % '; '.join(res['failures']), key='C06:optimized')
+
+SUITES = {'ops': suite_ops, 'optimized': suite_optimized}
 
 def gen_sys(rng, n, L):
     sd = C01.gen_solvable(rng, maxn=n, maxL=L)
@@ -228,7 +256,7 @@ def gen_sys(rng, n, L):
 
 def gen_ops(rng, maxlen, solved):
     k = rng.randint(2, maxlen)
-    pool = OPS[:-1] + (['resolve'] if solved else [])
+    pool = OPS[:-1] + (['resolve'] if solved else []) + [rng.choice(BADFLIPS)]
     ops = [rng.choice(pool) for _ in range(k)]
     if solved and rng.random() < 0.3: ops.insert(rng.randrange(len(ops)), 'resolve')
     return ops
@@ -245,6 +273,10 @@ def generate(ctx):
             ops = [a] + [b for b in base if not b.startswith('flip')]
             case = {'sys': sd, 'obj': ['hand', rng.randrange(10 ** 6)], 'ops': ops}
             ctx.case('ops', case, True, tags=['rank:%d' % n, 'obj:hand', 'first:' + a]); suite_ops(ctx, case)
+    for q in range(ctx.n(2, 8)):
+        sd = gen_sys(rng, rng.choice([2, 3]), 24)
+        case = {'sys': sd, 'obj': ['hand', rng.randrange(10 ** 6)], 'ops': ['sf0', 'pc', 'b21', 'pmf', 'flip_h', 'pc', 'chi0', 'solvH', 'pc', 'spin', 'sf1', 'pmf'], 'decoy_order': False}
+        ctx.case('optimized', case, True, tags=['python -O']); suite_optimized(ctx, case)
     for q in range(ctx.n(40, 400)):
         n = rng.choice([2, 2, 3])
         sd = gen_sys(rng, n, ctx.n(32, 64))
